@@ -547,10 +547,15 @@ func genInitSeqL(r *rand.Rand, id int, forceShared bool) Case {
 	cur := []Dbo{}
 	perm := r.Perm(len(dbNames))
 	cluster := clusters[r.Intn(len(clusters))]
+	sameRetention := shared && r.Intn(3) == 0
 	for i := 0; i < n; i++ {
 		d := genDbo(r, r.Intn(4) == 0 && !(shared && i == 0))
 		d.DB = dbNames[r.Intn(len(dbNames))]
 		if shared {
+			if i > 0 && sameRetention { // the tenants of one cluster configured alike: same retention, different databases
+				d = cur[0]
+				d.TTLPolicy = append([]TTLElem{}, cur[0].TTLPolicy...)
+			}
 			d.DB, d.Cluster = dbNames[perm[i]], cluster
 		}
 		cur = append(cur, d)
@@ -560,6 +565,9 @@ func genInitSeqL(r *rand.Rand, id int, forceShared bool) Case {
 	}
 	if shared {
 		c.Class += "+one-cluster-several-databases"
+	}
+	if sameRetention {
+		c.Class += "+same-retention"
 	}
 	genKey := func() []EnvVar {
 		out := []EnvVar{}
